@@ -60,62 +60,70 @@ static char *sig(hwloc_topology_t t, unsigned long flags, int nomem)
     hwloc_obj_type_t ty = hwloc_get_depth_type(t, d);
     if (ty == HWLOC_OBJ_GROUP || (oldtypes && ty == HWLOC_OBJ_DIE)) continue;
     ADD("|%d:%u", (int)ty, hwloc_get_nbobjs_by_depth(t, d));
-    if (attrs && hwloc_obj_type_is_cache(ty)) ADD("s%llu", (unsigned long long)hwloc_get_obj_by_depth(t, d, 0)->attr->cache.size);
+    if (attrs && hwloc_obj_type_is_cache(ty)) {
+      hwloc_obj_t c0 = hwloc_get_obj_by_depth(t, d, 0); unsigned long long sz = c0->attr->cache.size;
+      if (!sz) sz = c0->attr->cache.depth == 1 ? 32768ULL : (256ULL * 1024) << (2 * c0->attr->cache.depth);   /* size 0 is not exported: synthetic default */
+      ADD("s%llu", sz);
+    }
     if (attrs && ty == HWLOC_OBJ_PU) for (o = hwloc_get_obj_by_depth(t, d, 0); o; o = o->next_cousin) ADD(",%u", o->os_index);
   }
   if (mem) {
     ADD("|N%u", hwloc_get_nbobjs_by_type(t, HWLOC_OBJ_NUMANODE));
     for (o = hwloc_get_obj_by_type(t, HWLOC_OBJ_NUMANODE, 0); o; o = o->next_cousin) {
       ADD(";w%d", hwloc_bitmap_weight(o->cpuset));
-      if (attrs) ADD("i%um%llu", o->os_index, nomem ? 0ULL : (unsigned long long)o->attr->numanode.local_memory);
+      if (attrs) ADD("i%um%llu", o->os_index, nomem ? 0ULL : o->attr->numanode.local_memory ? (unsigned long long)o->attr->numanode.local_memory : 1073741824ULL /* memory 0 is not exported: synthetic default */);
     }
   }
   return b;
 }
 
+static unsigned long rt_off = 0;   /* 1000*(k+1) while round-tripping the k-th zero-attribute variant */
 static void roundtrip(hwloc_topology_t t)
 {
   unsigned long flags;
   for (flags = 0; flags < 16; flags++) {
     int n = hwloc_topology_export_synthetic(t, NULL, 0, flags), r, bad = 0;
     char *full, *s1, *s2, *again; size_t bl; hwloc_topology_t t2;
-    if (n < 0) { printf("rt f=%lu export-fails\n", flags); continue; }
+    if (n < 0) { printf("rt f=%lu export-fails\n", flags + rt_off); continue; }
     full = malloc(n + 1); memset(full, 0x55, n + 1);
     r = hwloc_topology_export_synthetic(t, full, n + 1, flags);
-    if (r != n || strlen(full) != (size_t)n) { printf("rt f=%lu FAIL contract-exact ret=%d n=%d\n", flags, r, n); free(full); continue; }
+    if (r != n || strlen(full) != (size_t)n) { printf("rt f=%lu FAIL contract-exact ret=%d n=%d\n", flags + rt_off, r, n); free(full); continue; }
     for (bl = 0; bl <= (size_t)n + 2 && !bad; bl++) {
       char *b; size_t k;
       if (n > 96 && bl > 4 && bl < (size_t)n - 2 && (bl * 7 + flags) % 13) continue;   /* long strings: a deterministic subset */
       b = bl ? malloc(bl) : NULL;
       if (bl) memset(b, 0x55, bl);
       r = hwloc_topology_export_synthetic(t, b, bl, flags);
-      if (r != n) { printf("rt f=%lu FAIL contract-ret buflen=%zu ret=%d n=%d\n", flags, bl, r, n); bad = 1; }
+      if (r != n) { printf("rt f=%lu FAIL contract-ret buflen=%zu ret=%d n=%d\n", flags + rt_off, bl, r, n); bad = 1; }
       else if (bl) {
         k = (size_t)n < bl - 1 ? (size_t)n : bl - 1;
-        if (b[k] != 0) { printf("rt f=%lu FAIL contract-nul buflen=%zu\n", flags, bl); bad = 1; }
-        else if (memcmp(b, full, k)) { printf("rt f=%lu FAIL contract-prefix buflen=%zu\n", flags, bl); bad = 1; }
-        else { size_t z; for (z = k + 1; z < bl; z++) if ((unsigned char)b[z] != 0x55) { printf("rt f=%lu FAIL contract-tail-written buflen=%zu at=%zu\n", flags, bl, z); bad = 1; break; } }
+        if (b[k] != 0) { printf("rt f=%lu FAIL contract-nul buflen=%zu\n", flags + rt_off, bl); bad = 1; }
+        else if (memcmp(b, full, k)) { printf("rt f=%lu FAIL contract-prefix buflen=%zu\n", flags + rt_off, bl); bad = 1; }
+        else { size_t z; for (z = k + 1; z < bl; z++) if ((unsigned char)b[z] != 0x55) { printf("rt f=%lu FAIL contract-tail-written buflen=%zu at=%zu\n", flags + rt_off, bl, z); bad = 1; break; } }
       }
       free(b);
     }
     if (bad) { free(full); continue; }
     hwloc_topology_init(&t2); set_filters(t2);
     if (hwloc_topology_set_synthetic(t2, full) < 0 || hwloc_topology_load(t2) < 0) {
-      printf("rt f=%lu FAIL reimport-rejected %s\n", flags, full);
+      printf("rt f=%lu FAIL reimport-rejected %s\n", flags + rt_off, full);
       hwloc_topology_destroy(t2); free(full); continue;
     }
-    s1 = sig(t, flags, 0); s2 = sig(t2, flags, 0);
+    /* partially zeroed variants have heterogeneous NUMA sizes, of which the export keeps the first parent's only (known limitation) */
+    s1 = sig(t, flags, rt_off == 2000 || rt_off == 3000); s2 = sig(t2, flags, rt_off == 2000 || rt_off == 3000);
     if (strcmp(s1, s2)) {
       char *m1 = sig(t, flags, 1), *m2 = sig(t2, flags, 1);
-      printf("rt f=%lu FAIL %s %s\n", flags, strcmp(m1, m2) ? "structure" : "structure-numa-memory-pairing", full);
+      printf("rt f=%lu FAIL %s %s\n", flags + rt_off, strcmp(m1, m2) ? "structure" : "structure-numa-memory-pairing", full);
       free(m1); free(m2);
     }
     else {
       int n2 = hwloc_topology_export_synthetic(t2, NULL, 0, flags);
       again = malloc(n2 >= 0 ? n2 + 1 : 1); again[0] = 0;
       if (n2 >= 0) hwloc_topology_export_synthetic(t2, again, n2 + 1, flags);
-      if (n2 != n || strcmp(again, full)) printf("rt f=%lu FAIL not-fixpoint %s -> %s\n", flags, full, again);
-      else printf("rt f=%lu ok n=%d\n", flags, n);
+      /* an attribute that is 0 is not written and comes back as the default: the second export then shows it */
+      if (rt_off) printf("rt f=%lu ok n=%d\n", flags + rt_off, n);
+      else if (n2 != n || strcmp(again, full)) printf("rt f=%lu FAIL not-fixpoint %s -> %s\n", flags + rt_off, full, again);
+      else printf("rt f=%lu ok n=%d\n", flags + rt_off, n);
       free(again);
     }
     free(s1); free(s2); hwloc_topology_destroy(t2); free(full);
@@ -187,6 +195,36 @@ static void export_errors(hwloc_topology_t t)
   }
 }
 
+/* Topologies NOT built by the synthetic parser: export to XML, rewrite local_memory / cache_size attributes to 0
+ * (values the parser can never produce), reload from the XML buffer, and round-trip the synthetic export of that. */
+static void zero_variants(hwloc_topology_t t)
+{
+  char *xml; int len, which;
+  if (hwloc_topology_export_xmlbuffer(t, &xml, &len, 0) < 0) { printf("rt f=900 FAIL xml-export\n"); return; }
+  for (which = 0; which < 4; which++) {
+    char *buf = malloc(len + 1), *w = buf; const char *r = xml; int occ = 0, changed = 0; hwloc_topology_t t4;
+    while (*r) {
+      const char *key = NULL; size_t kl = 0;
+      if (!strncmp(r, "local_memory=\"", 14)) { key = "local_memory=\""; kl = 14; }
+      else if (which == 3 && !strncmp(r, "cache_size=\"", 12)) { key = "cache_size=\""; kl = 12; }
+      if (key) {
+        int zero = which == 0 || which == 3 || (which == 1 && occ == 0) || (which == 2 && (occ & 1));
+        if (kl == 14) occ++;
+        memcpy(w, r, kl); w += kl; r += kl;
+        if (zero) { *w++ = '0'; while (*r && *r != '"') r++; changed = 1; }
+      } else *w++ = *r++;
+    }
+    *w = 0;
+    if (!changed) { free(buf); continue; }
+    hwloc_topology_init(&t4); set_filters(t4);
+    if (hwloc_topology_set_xmlbuffer(t4, buf, (int)(w - buf) + 1) < 0 || hwloc_topology_load(t4) < 0)
+      printf("rt f=%d FAIL xml-reload\n", 1000 * (which + 1));
+    else { rt_off = 1000UL * (which + 1); roundtrip(t4); rt_off = 0; }
+    hwloc_topology_destroy(t4); free(buf);
+  }
+  hwloc_free_xmlbuffer(t, xml);
+}
+
 int main(int argc, char **argv)
 {
   int verbose = argc > 1 && !strcmp(argv[1], "--verbose");
@@ -206,7 +244,7 @@ int main(int argc, char **argv)
     /* type filters: "l" / "lA" = instruction caches and MemCache kept (set_filters); "lD" = the library defaults;
      * then optional N<t>.<t>... (KEEP_NONE) and S<t>.<t>... (KEEP_STRUCTURE), e.g. lDN10.6S1 */
     if (mode[0] == 'l' && mode[1] == 'D') ; else set_filters(t);
-    if (mode[0] == 'l' && mode[1]) {
+    if (mode[0] == 'l' && mode[1] && mode[1] != 'z') {
       const char *q = mode + 2; enum hwloc_type_filter_e f = HWLOC_TYPE_FILTER_KEEP_NONE;
       while (*q) {
         if (*q == 'N') { f = HWLOC_TYPE_FILTER_KEEP_NONE; q++; }
@@ -237,7 +275,7 @@ int main(int argc, char **argv)
     fflush(stdout);
     if (rc == 0 && mode[0] == 'l') {
       if (hwloc_topology_load(t) < 0) printf("load-fails errno=%d\n", errno);
-      else { printf("loaded\n"); print_objects(t); fflush(stdout); if (!mode[1]) { roundtrip(t); export_errors(t); } }
+      else { printf("loaded\n"); print_objects(t); fflush(stdout); if (!mode[1] || mode[1] == 'z') { roundtrip(t); export_errors(t); if (mode[1] == 'z') zero_variants(t); } }
     }
     hwloc_topology_destroy(t);
     free(desc);
